@@ -300,7 +300,7 @@ pub fn eval(case: &Case) -> (Vec<Violation>, u64, Vec<String>) {
                 let conf = w.join("tauri.conf.json");
                 std::fs::write(&conf, format!("{{\"productName\":\"demo\",\"plugins\":{{\"typegen\":{{\"projectPath\":\"./src-tauri\",\"outputPath\":\"./conf-out\",\"validationLibrary\":\"{}\"}}}}}}", cfg.mode_name())).unwrap();
                 let args: Vec<String> = vec!["tauri-typegen".into(), "generate".into(), "-p".into(), "./src-tauri".into(), "-o".into(), cfg.output_path.clone()];
-                let r = run::spawn(Spawn { program: run::cli_binary(), args, cwd: &w, schedule_env: None, trace_file: None, strace: strace.clone() , hash_seed: None});
+                let r = run::spawn(Spawn { program: run::cli_binary(), args, cwd: &w, schedule_env: None, trace_file: None, strace: strace.clone() , hash_seed: None, fsize_limit: None});
                 let _ = std::fs::remove_file(&conf);
                 r
             }
@@ -309,7 +309,7 @@ pub fn eval(case: &Case) -> (Vec<Violation>, u64, Vec<String>) {
                 if case.visualize {
                     args.push("--visualize-deps".into());
                 }
-                run::spawn(Spawn { program: run::cli_binary(), args, cwd: &w, schedule_env: None, trace_file: None, strace: strace.clone() , hash_seed: None})
+                run::spawn(Spawn { program: run::cli_binary(), args, cwd: &w, schedule_env: None, trace_file: None, strace: strace.clone() , hash_seed: None, fsize_limit: None})
             }
         };
         runs += 1;
